@@ -17,6 +17,8 @@ func VFRun(env *vfc.Env) {
 		vfC10(env)
 	case "db.proto":
 		vfProto(env)
+	case "db.c17":
+		vfC17(env)
 	case "db.c05":
 		vfC05(env)
 	case "db.c04":
